@@ -1,4 +1,116 @@
 import Cjet.Basic
+import Cjet.Accept
+/-!
+Driver for component `accept` (linux_io.c acceptance path; properties C11 / C07 / C04 / C08).
+Script on stdin, one operation per line — the same script `harness/comp/accept.c` reads:
+
+    call  <jet|http|null> <l> <answer>…          accept_common on listener descriptor l
+    start <jet|http|null> <l> <0|1> <answer>…    start_server; 0|1 = does loop->add succeed
+    stop  <l>                                     stop_server
+    islocal <family> <hex>                        is_localhost on (family, bytes behind the family field)
+
+answer:  `E<errno>`  |  `C<fd>:<family>:<hex>:<gsfamily>:<faults>`
+  hex     bytes `accept` stores behind the family field (`-` = none)
+  faults  letters of the steps that fail for this descriptor (`-` = none):
+          g F_GETFL  s F_SETFL  n getsockname  d TCP_NODELAY  i TCP_KEEPIDLE  v TCP_KEEPINTVL  c TCP_KEEPCNT
+          k SO_KEEPALIVE  p alloc peer/connection  b buffered_socket_acquire  t init_socket_peer/init_http_connection
+When the answers are used up `accept` answers EAGAIN.
+
+Output: one line per event, then `RET continue|abort used=<n>` (call), `START ret=<r>` (start),
+`LOCAL 0|1` (islocal); every operation is closed by `END`.
+-/
 namespace Cjet.Drv.Accept
-def run (_args : List String) : IO UInt32 := pure 0
+
+open Cjet Cjet.Accept
+
+def parseKind (s : String) : Option Kind :=
+  if s == "jet" then some .jet else if s == "http" then some .http else if s == "null" then some .none else none
+
+def setupOf (gsfam : Nat) (faults : String) : Setup :=
+  let f (c : Char) : Bool := !(faults.toList.contains c)
+  { getfl := f 'g', setfl := f 's', getsockname := f 'n', gsFamily := gsfam, nodelay := f 'd',
+    keepidle := f 'i', keepintvl := f 'v', keepcnt := f 'c', keepalive := f 'k',
+    allocOwner := f 'p', acquireBs := f 'b', init := f 't' }
+
+def parseAns (tok : String) : Option Ans :=
+  match tok.toList with
+  | 'E' :: ds => (String.ofList ds).toNat?.map Ans.err
+  | 'C' :: rest =>
+    match (String.ofList rest).splitOn ":" with
+    | [fd, fam, hex, gsfam, faults] =>
+      match fd.toNat?, fam.toNat?, Hex.toBytes? hex, gsfam.toNat? with
+      | some fd, some fam, some sa, some gs => some (.conn fd fam sa (setupOf gs faults))
+      | _, _, _, _ => none
+    | _ => none
+  | _ => none
+
+def objName : Obj → String
+  | .peer => "peer" | .conn => "conn" | .bs => "bs"
+
+def sysName : Sys → String
+  | .getfl => "getfl" | .setfl => "setfl" | .getsockname => "getsockname" | .nodelay => "nodelay"
+  | .keepidle => "keepidle" | .keepintvl => "keepintvl" | .keepcnt => "keepcnt" | .keepalive => "keepalive"
+
+def kindName : Kind → String
+  | .jet => "jet" | .http => "http" | .none => "null"
+
+def okName (b : Bool) : String := if b then "ok" else "fail"
+
+def evLine : Ev → String
+  | .acceptFd l fd => s!"ACCEPT l={l} fd={fd}"
+  | .acceptErr l e => s!"ACCEPT l={l} errno={e}"
+  | .sys fd c ok => s!"SYS fd={fd} {sysName c} {okName ok}"
+  | .close fd => s!"CLOSE fd={fd}"
+  | .alloc o => s!"ALLOC {objName o}"
+  | .allocFail o => s!"ALLOCFAIL {objName o}"
+  | .free o => s!"FREE {objName o}"
+  | .initFail => "INITFAIL"
+  | .owned fd loc k => s!"PEER fd={fd} local={if loc then 1 else 0} kind={kindName k}"
+  | .add l ok => s!"ADD l={l} {okName ok}"
+  | .remove l => s!"REMOVE l={l}"
+
+def retName : Ret → String
+  | .continueLoop => "continue" | .abortLoop => "abort"
+
+def stepLine (_ : Unit) (line : String) : Unit × List String :=
+  let line := line.trimAscii.toString
+  if line.isEmpty || line.startsWith "#" then ((), []) else
+  match words line with
+  | "call" :: k :: l :: answers =>
+    match parseKind k, l.toNat?, answers.mapM parseAns with
+    | some k, some l, some script =>
+      let r := acceptLoop k l script
+      ((), r.trace.map evLine ++ [s!"RET {retName r.ret} used={r.used}", "END"])
+    | _, _, _ => ((), ["ERROR bad call", "END"])
+  | "start" :: k :: l :: a :: answers =>
+    match parseKind k, l.toNat?, a.toNat?, answers.mapM parseAns with
+    | some k, some l, some a, some script =>
+      let r := startServer k l (a != 0) script
+      ((), r.1.map evLine ++ [s!"START ret={r.2}", "END"])
+    | _, _, _, _ => ((), ["ERROR bad start", "END"])
+  | ["stop", l] =>
+    match l.toNat? with
+    | some l => ((), (stopServer l).map evLine ++ ["END"])
+    | none => ((), ["ERROR bad stop", "END"])
+  | ["islocal", fam, hex] =>
+    match fam.toNat?, Hex.toBytes? hex with
+    | some fam, some sa => ((), [s!"LOCAL {if isLocalhost fam sa then 1 else 0}", "END"])
+    | _, _ => ((), ["ERROR bad islocal", "END"])
+  | _ => ((), ["ERROR unknown op", "END"])
+
+def run (args : List String) : IO UInt32 := do
+  match args with
+  | [] =>
+    Cjet.runLines stepLine ()
+    return 0
+  | ["classes"] =>
+    IO.println s!"fatal {Cjet.Generated.Accept.fatalErrnos}"
+    IO.println s!"retry {Cjet.Generated.Accept.retryErrnos}"
+    IO.println s!"stop {Cjet.Generated.Accept.stopErrnos}"
+    IO.println s!"default {Cjet.Generated.Accept.defaultAction}"
+    return 0
+  | _ =>
+    IO.eprintln s!"drv_accept: unknown arguments {args}"
+    return 2
+
 end Cjet.Drv.Accept
